@@ -138,9 +138,10 @@ def harnesses(tier):
     # here as well, so that this check stands on its own (a leak between a PSM and the model that
     # scores it, or q-values computed before the competition, breaks C04 through them).
     from checks import c02, c03
-    want2 = ("brew[n=4,folds=2]", "brew[n=4,folds=2,cap,rng,fixed labels]", "brew[n=4+2,folds=2,2 files,cap,fixed labels]", "brew_with_mokapot_Model[n=4,folds=2]") if tier == "quick" else None
+    want2 = ("brew[n=4,folds=2]", "brew[n=4,folds=2,cap,rng,fixed labels]", "brew[n=4+2,folds=2,2 files,cap,fixed labels]", "brew_with_mokapot_Model[n=4,folds=2]") if tier == "quick" else \
+        ("brew[n=5,folds=2]", "brew[n=4,folds=2,cap,rng]", "brew[n=4,folds=2,2 files]", "brew_with_mokapot_Model[n=6,folds=2]")
     for h in c02.harnesses(tier):
-        if want2 is None or h.name in want2:
+        if h.name in want2:
             h.name = "L2:" + h.name
             hs.append(h)
     want3 = ("confidence[n=3,all switches]",) if tier == "quick" else ("confidence[n=4,dedup+rollup+decoys]", "confidence[n=3,all switches,chunk symbolic]")
